@@ -386,7 +386,7 @@ def rule_dispatch_scheduled(ctx: Ctx) -> None:
         # the bound is not reassigned between the two calls
         for c in sched:
             for s in A.stores(loop):
-                if isinstance(s.target, ast.Name) and s.target.id == arg.id and c.lineno < s.stmt.lineno < ev.lineno:
+                if isinstance(s.target, ast.Name) and s.target.id == arg.id and A.seq(c) < A.seq(s.stmt) < A.seq(ev):
                     ctx.bad("C13.3", "same bound for jobs and events", loop, s.stmt,
                             f"{arg.id} reassigned between the two dispatch steps")
 
